@@ -96,11 +96,11 @@ Proof. rewrite nlen_length, Hlen. reflexivity. Qed.
 
 (* ------------------------------------------------------------------ sizes *)
 
-Lemma enc_href_finish_len e : (nlen (enc_href (finish H e false)) <= 33)%N.
+Lemma enc_href_finish_len e : (nlen (enc_href (finish H e false)) <= 41)%N.
 Proof.
   unfold finish. destruct (N.ltb_spec (nlen e) 32); cbn [andb negb enc_href].
   - lia.
-  - pose proof (rlp_string_len (H e)). rewrite nlen_H in *. unfold two64 in *. lia.
+  - pose proof (rlp_string_len (H e)) as X. rewrite nlen_H in X. unfold two64 in X. lia.
 Qed.
 
 Lemma href_len c : sized c -> (nlen (enc_href (hspec H c false)) <= B32 + 9)%N.
@@ -217,6 +217,13 @@ Proof.
   - apply decode_ref_hash.
 Qed.
 
+Lemma emb_enc c : canon c -> c <> Empty -> (nlen (cenc c) < 32)%N ->
+  enc_href (hspec H c false) = cenc c.
+Proof.
+  intros Hc Hne Hl. rewrite (hspec_node c Hc Hne). unfold finish.
+  destruct (N.ltb_spec (nlen (cenc c)) 32); [reflexivity|lia].
+Qed.
+
 Lemma decode_children_spec dec (l : list node) : forall rest,
   (forall c, In c l -> forall rest', decode_ref dec (enc_href (hspec H c false) ++ rest') = Some (cref c, rest')) ->
   decode_children dec (length l) (full_payload l ++ rest) = Some (map cref l, rest).
@@ -270,6 +277,9 @@ Qed.
 Lemma rlp_list_nonempty p : rlp_list p <> [].
 Proof. unfold rlp_list. destruct (N.ltb (nlen p) 56); discriminate. Qed.
 
+Lemma app_rlp_list_nonempty p rest : rlp_list p ++ rest <> [].
+Proof. intros X. apply app_eq_nil in X. destruct X as [X _]. eapply rlp_list_nonempty; eauto. Qed.
+
 Lemma count_two a b : (exists k x, item k x a) -> (exists k x, item k x b) ->
   count_values (length (a ++ b)) (a ++ b) = Some 2.
 Proof.
@@ -292,7 +302,7 @@ Proof.
     destruct fuel as [|fuel]; [pose proof (rlp_list_nonempty (short_payload (p ++ [16]) (Value v))) as X;
                                destruct (rlp_list _); [congruence|cbn in Hf; lia]|].
     pose proof (item_list _ (short_payload_len _ _ Hkl Hsc)) as Hil.
-    rewrite (decode_node_step fuel h _ _ rest); [|intros X; apply app_eq_nil in X; destruct X as [X _]; eapply rlp_list_nonempty; eauto|apply split_list_item; auto].
+    rewrite (decode_node_step fuel h _ _ rest (app_rlp_list_nonempty _ rest) (split_list_item _ _ rest Hil)).
     cbv zeta. unfold short_payload. change (hspec H (Value v) false) with (HVal v). cbn [enc_href].
     destruct (item_string (hex_to_compact (p ++ [16]))) as (k1 & Hk1 & _ & Hi1).
     { pose proof (compact_len (p ++ [16])). unfold two64, B32 in *. lia. }
@@ -310,7 +320,12 @@ Proof.
     pose proof (rlp_list_len _ (short_payload_len _ _ Hkl Hsc)) as Hll.
     destruct fuel as [|fuel]; [pose proof (rlp_list_nonempty (short_payload k (Full cs g))) as X;
                                destruct (rlp_list _); [congruence|cbn in Hf; lia]|].
-    rewrite (decode_node_step fuel h _ _ rest); [|intros X; apply app_eq_nil in X; destruct X as [X _]; eapply rlp_list_nonempty; eauto|apply split_list_item; auto].
+    assert (Hfuel : (nlen (cenc (Full cs g)) < 32)%N -> length (cenc (Full cs g)) <= fuel).
+    { intros Hsmall.
+      assert (Hle : (nlen (cenc (Full cs g)) <= nlen (short_payload k (Full cs g)))%N).
+      { unfold short_payload. rewrite nlen_app, (emb_enc _ Hc) by (auto; discriminate). lia. }
+      rewrite !nlen_length in Hle, Hll. lia. }
+    rewrite (decode_node_step fuel h _ _ rest (app_rlp_list_nonempty _ rest) (split_list_item _ _ rest Hil)).
     cbv zeta. unfold short_payload in *.
     destruct (item_string (hex_to_compact k)) as (k1 & Hk1 & _ & Hi1).
     { pose proof (compact_len k). unfold two64, B32 in *. lia. }
@@ -323,11 +338,6 @@ Proof.
     rewrite (decode_ref_child (decode_node fuel None) (Full cs g) [] Hc Hsc Hcne).
     + reflexivity.
     + intros Hsmall. apply IH; auto.
-      (* the embedded child is strictly shorter than this node *)
-      rewrite nlen_app in Hll. rewrite !nlen_length in *.
-      rewrite (hspec_node _ Hc Hcne) in Hll. unfold finish in Hll.
-      destruct (N.ltb_spec (N.of_nat (length (cenc (Full cs g)))) 32); cbn [andb negb enc_href] in Hll; [|lia].
-      rewrite !nlen_length in Hll. lia.
   - (* branch *)
     inversion Hs as [| | |? ? Hsc]; subst.
     rewrite cenc_full in *.
@@ -335,7 +345,7 @@ Proof.
     pose proof (rlp_list_len _ (full_payload_len _ Hl Hsc)) as Hll.
     destruct fuel as [|fuel]; [pose proof (rlp_list_nonempty (full_payload cs)) as X;
                                destruct (rlp_list _); [congruence|cbn in Hf; lia]|].
-    rewrite (decode_node_step fuel h _ _ rest); [|intros X; apply app_eq_nil in X; destruct X as [X _]; eapply rlp_list_nonempty; eauto|apply split_list_item; auto].
+    rewrite (decode_node_step fuel h _ _ rest (app_rlp_list_nonempty _ rest) (split_list_item _ _ rest Hil)).
     cbv zeta.
     (* seventeen items *)
     assert (Hitems : Forall (fun it => exists k x, item k x it) (map (fun c => enc_href (hspec H c false)) cs)).
@@ -359,8 +369,8 @@ Proof.
       pose proof (nth_error_split cs 16 Hn16) as (l1 & l2 & E & Hl1). rewrite E.
       rewrite <- Hl1, skipn_app_len. rewrite E, app_length in Hl. cbn in Hl.
       destruct l2; [reflexivity|cbn in Hl; lia]. }
-    set (l16 := firstn 16 cs) in *.
-    assert (Hl16 : length l16 = 16) by (unfold l16; rewrite firstn_length; lia).
+    remember (firstn 16 cs) as l16 eqn:El16.
+    assert (Hl16 : length l16 = 16) by (rewrite El16, firstn_length; lia).
     assert (Epay : full_payload cs = full_payload l16 ++ enc_href (hspec H c16 false)).
     { rewrite Ecs at 1. unfold full_payload. rewrite map_app, concat_app. cbn. rewrite app_nil_r. reflexivity. }
     rewrite Epay. rewrite <- Hl16.
@@ -376,9 +386,10 @@ Proof.
           assert (Hsv : sized (Value v)) by (apply Hsc; eapply nth_error_In; eauto). inversion Hsv; subst.
           destruct (item_string v) as (k & Hk & _ & Hi); [unfold two64, B32 in *; lia|].
           rewrite <- (app_nil_r (rlp_string v)). rewrite (split_string_item _ _ _ _ Hi Hk). split; auto.
-          destruct v; [congruence|]. reflexivity. }
+          destruct (N.ltb_spec 0 (nlen v)) as [_|X]; [reflexivity|]. destruct v; [congruence|cbn [nlen] in X; lia]. }
       destruct Hval as (val & Hsv & Hcv). rewrite Hsv, Hcv. rewrite shallow_full.
-      rewrite Ecs at 2. rewrite map_app. reflexivity.
+      replace (map cref cs) with (map cref l16 ++ [cref c16]); [reflexivity|].
+      rewrite Ecs at 1. rewrite map_app. reflexivity.
     + (* each of the sixteen children *)
       intros c Hin rest'. assert (Hinc : In c cs) by (rewrite Ecs; apply in_or_app; auto).
       destruct (In_nth_error _ _ Hin) as (i & Hi).
@@ -391,13 +402,11 @@ Proof.
         rewrite decode_ref_empty. reflexivity.
       * apply is_empty_false in E. apply decode_ref_child; auto.
         intros Hsmall. apply (IH i c Hics Hi16); auto.
-        (* the embedded child is strictly shorter than this node *)
-        assert (Hle : (nlen (enc_href (hspec H c false)) <= nlen (full_payload cs))%N).
+        assert (Hle : (nlen (cenc c) <= nlen (full_payload cs))%N).
         { unfold full_payload. destruct (in_split _ _ Hinc) as (l1 & l2 & ->).
-          rewrite map_app, concat_app. cbn [map concat]. rewrite !nlen_app. lia. }
-        rewrite (hspec_node _ Hcc E) in Hle. unfold finish in Hle.
-        destruct (N.ltb_spec (nlen (cenc c)) 32); cbn [andb negb enc_href] in Hle; [|lia].
-        rewrite !nlen_length in *. lia.
+          rewrite map_app, concat_app. cbn [map concat]. rewrite !nlen_app.
+          rewrite (emb_enc _ Hcc E Hsmall). lia. }
+        rewrite !nlen_length in Hle, Hll. lia.
 Qed.
 
 End Codec.
